@@ -8,7 +8,7 @@ CONSTANTS
   EVOLUTIONS <- FewEvolutions
   MaxEvents = 2
   MaxDeliver = 4
-  MaxReinit = 0
+  MaxReinit = 1
 INVARIANTS TypeOK Chain BookValid BookNeverWrong BookIsMap Told CleanNeverErrors
 PROPERTIES BreakSurfaces Isolation AdvanceOnlyOnAdmission
 VIEW View
